@@ -16,7 +16,10 @@ for n in sorted(os.listdir(src)):
     pkg = meta.get("demo_pkg", "").strip("./")
     suite = meta.get("suite") or ("./" + pkg + "/...")
     if isinstance(suite, list): suite = " ".join(suite)
-    suite = " ".join(t for t in suite.replace(",", " ").split() if t.startswith("./")) or "./" + pkg + "/..."
+    toks = [t.strip("();:.,'`\"") for t in suite.replace(",", " ").split()]
+    toks = [t + ("..." if t.endswith("/") else "") for t in toks]
+    toks = [t for t in toks if t.startswith("./") and "out" not in t]
+    suite = "./..." if "./..." in toks or "./.." in toks else (" ".join(dict.fromkeys(toks)) or "./" + pkg + "/...")
     conf = subprocess.run([V + "/tools/seedconfirm.sh", d, pkg] + suite.split(), capture_output=True, text=True).stdout
     ok = ("demo without patch: PASS" in conf and "build with patch: OK" in conf and "existing suite with patch" in conf
           and "): PASS" in conf and "FAIL (as expected)" in conf)
